@@ -267,12 +267,12 @@ Proof.
       - intros _. rewrite He, Hx. reflexivity.
       - rewrite He, Hx. reflexivity. }
   destruct (sign_in_entered lower d o now_ns slug k q an Hran) as [[Hm [Hi [Hpid [Hvu Hvs]]]] Hx].
-  set (fr := F.sign_in lower (fcfg d) k (now_ns / ns) (F.mkSI true true true true (B.form_get k_state (the_form (inner q p_sign_in))))
+  set (fr := F.sign_in lower (fcfg d) (fkind k) (now_ns / ns) (F.mkSI true true true true (B.form_get k_state (the_form (inner q p_sign_in))))
                (cookie_of d o (lookup slug (q_sess q))) (an_refresh an) (an_validate an)) in *.
   (* what C09's own monitor lemma says about AuthFlow's response *)
-  pose proof (C9.si_holds_model lower (fcfg d) k (now_ns / ns) (F.mkSI true true true true (B.form_get k_state (the_form (inner q p_sign_in))))
+  pose proof (C9.si_holds_model lower (fcfg d) (fkind k) (now_ns / ns) (F.mkSI true true true true (B.form_get k_state (the_form (inner q p_sign_in))))
                 (cookie_of d o (lookup slug (q_sess q))) (an_refresh an) (an_validate an) Hguard) as Hsi.
-  change (F.sign_in_route lower (fcfg d) k (now_ns / ns) (F.mkSI true true true true (B.form_get k_state (the_form (inner q p_sign_in))))
+  change (F.sign_in_route lower (fcfg d) (fkind k) (now_ns / ns) (F.mkSI true true true true (B.form_get k_state (the_form (inner q p_sign_in))))
             (cookie_of d o (lookup slug (q_sess q))) (an_refresh an) (an_validate an)) with fr in Hsi.
   unfold Corr_C09.si_holds, Corr_C09.si_obs_of in Hsi.
   cbn [Corr_C09.so_has_code Corr_C09.so_status Corr_C09.so_code Corr_C09.so_ops Corr_C09.so_calls Corr_C09.so_leak Corr_C09.so_page] in Hsi.
@@ -331,7 +331,7 @@ Proof.
     { unfold in_domain_uri. rewrite Huri. apply C7.redir_monitor_ok. exact Hvu. }
     assert (Bsig : sig_ok d now_ns g = true).
     { unfold sig_ok. rewrite Huri, Hsig, Hts. apply C7.sig_monitor_ok. exact Hvs. }
-    assert (Hallowed : Corr_C09.spec_code_allowed lower (fcfg d) k (now_ns / ns)
+    assert (Hallowed : Corr_C09.spec_code_allowed lower (fcfg d) (fkind k) (now_ns / ns)
               (F.mkSI (is_get g) (id_shown d g) (in_domain_uri d (g_uri g)) (sig_ok d now_ns g) (g_state g))
               (cookie_of d o (lookup slug (q_sess q))) (an_refresh an) (an_validate an) (F.r_calls fr) = true).
     { rewrite Bget, Bid, Bdom, Bsig. unfold Corr_C09.spec_code_allowed in Hall |- *.
@@ -634,7 +634,7 @@ Proof. intros. apply holds_model; assumption. Qed.
 
 (* the hypothesis [sane] is satisfiable: the bookkeeping a generator keeps for the example request *)
 Definition ex_ghost : ghost :=
-  {| g_route := RtSignIn; g_kind := F.Google; g_method := B.m_get; g_ids := [d_client_id Ex.d]; g_secrets := [];
+  {| g_route := RtSignIn; g_kind := AGoogle; g_method := B.m_get; g_ids := [d_client_id Ex.d]; g_secrets := [];
      g_uri := Ex.uri; g_sig := G.SigTag (G.Mac (d_client_secret Ex.d) (Ex.uri ++ G.dec 1000)); g_ts := [49;48;48;48];
      g_outer := []; g_state := [120]; g_cookie := F.CkSealed F.KCookie (to_flow Ex.sess); g_csrf := None;
      g_cb_state := None; g_cb_code := []; g_vouched := None; g_code := None; g_from := None |}.
